@@ -69,6 +69,27 @@ def strip_mods(x: P, must_divide: int):
         return x
 
 
+def _twelfths(b: P, tr_name: str) -> bool:
+    """b is element i of round(12 * t) (as integers), t the translation argument - itself or reduced modulo 1 first (12 (t mod 1) and
+    12 t differ by a multiple of 12, which the digit's own reduction removes)."""
+    a = b.as_atom()
+    # element of the array
+    if a and a[0] == "sub" and len(a[2]) == 1:
+        a = a[1].as_atom()
+    while a and a[0] == "call" and call_name(a) in (".astype",):
+        a = a[1].as_atom()[1].as_atom()
+    if not (a and a[0] == "call" and call_name(a) in ("round", "numpy.round", "numpy.rint") and a[2]):
+        return False
+    arg = a[2][0]
+    t = arg / 12
+    ta = t.as_atom()
+    if ta and ta[0] == "bin" and ta[1] == "Mod" and ta[3] == P.const(1):
+        ta = ta[2].as_atom()
+    while ta and ta[0] == "call" and call_name(ta) in ("numpy.array", "numpy.asarray") and ta[2]:
+        ta = ta[2][0].as_atom()
+    return bool(ta and ta[0] == "name" and ta[1] == tr_name)
+
+
 def run(chk):
     repo = chk.repo
     so = repo.module(SO)
@@ -171,7 +192,7 @@ def r11_1(chk, so):
     for i, (coef, base) in sorted(tr_digits.items()):
         w = M.T_WEIGHTS[i] * M.ROT_RADIX
         b = strip_mods(base, 12)
-        scale_ok = "12*numpy.array(" + tr_name + ")" in b.key() and "round(" in b.key()
+        scale_ok = _twelfths(b, tr_name)
         chk.ob("R11.1", SO, "encode_symm_int", f"translation {i} is packed as round(12 t) * 3^9 * 12^{2 - i}",
                coef == w and scale_ok, fingerprint=f"enc-tr:{i}", expected=f"weight {w}, scale 12", found=f"weight {coef}, digit {base}")
     chk.ob("R11.1", SO, "encode_symm_int", "no constant offset besides the digit offsets", const == 0, found=str(const))
